@@ -182,6 +182,63 @@ def run(ctx, model_ok):
                                     'actual': {'TZ=JST-9': cb['items'][j:j + 1], 'TZ=PST8PDT': cc2['items'][j:j + 1]},
                                     'why': 'the formatted lines change with the local time zone of the host'})
                 break
+    # the interpreter's optimisation level is host configuration too (python -O / PYTHONOPTIMIZE strips assert statements)
+    oreqs = list(lreqs[:8])
+    from ..harness import dumps as D
+    for _ in range(3):
+        threads, evs = sg.gen(rng, n_ops=8)
+        oreqs.append({'file': D.build_v3(threads, [sg.records(evs[:3]), sg.records(evs[3:], ts0=10)], []).hex(),
+                      'cfg': {'color': False}, 'calls': ['formatted_kevents', 'formatted_traces']})
+    oa = vlib.run_impl('run_api.py', {'cases': oreqs})['results']
+    ob = vlib.run_impl('run_api.py', {'cases': oreqs}, env_extra={'PYTHONOPTIMIZE': '1'})['results']
+    ctx.evaluations += 2 * len(oreqs)
+    for rq, a, b in zip(oreqs, oa, ob):
+        ctx.count('optimize')
+        for ca, cb in zip(a, b):
+            if ca['items'] != cb['items'] or ca['err'] != cb['err']:
+                ctx.failing.append({'input': {'kind': 'optimize', 'file': rq['file'], 'cfg': rq['cfg'], 'call': ca['call']},
+                                    'expected': {'plain interpreter': ca['items'][:2] or ca['err']},
+                                    'actual': {'PYTHONOPTIMIZE=1': cb['items'][:2] or cb['err']},
+                                    'why': 'the formatted lines change with the optimisation level of the host interpreter (assert statements with side effects)'})
+                break
+    # static: the library does not consult the platform, the environment, the clock or the Unicode database of the interpreter
+    # (text classification methods change with the Python release) - a finite list of such facilities must not appear in it
+    import ast as _ast
+    lint = []
+    DENY_ATTR = {('os', 'environ'), ('os', 'getenv'), ('os', 'name'), ('os', 'sep'), ('os', 'linesep'), ('os', 'getcwd'), ('os', 'getlogin'),
+                 ('os', 'get_terminal_size'), ('os', 'fsdecode'), ('os', 'fsencode'), ('sys', 'platform'), ('sys', 'byteorder'), ('sys', 'maxsize'),
+                 ('sys', 'version_info'), ('sys', 'getdefaultencoding'), ('sys', 'getfilesystemencoding'), ('sys', 'stdout'), ('time', 'time'),
+                 ('time', 'localtime'), ('time', 'tzname'), ('time', 'timezone'), ('datetime', 'now'), ('datetime', 'today'),
+                 ('shutil', 'get_terminal_size'), ('uuid', 'uuid1'), ('uuid', 'uuid4'), ('uuid', 'getnode')}
+    DENY_MOD = {'platform', 'locale', 'getpass', 'random', 'unicodedata', 'socket', 'errno', 'signal'}
+    DENY_METH = {'isprintable', 'isalnum', 'isalpha', 'isidentifier', 'isnumeric', 'isdecimal', 'casefold', 'islower', 'isupper', 'istitle'}
+    base = '/repo/pykdebugparser'
+    for root, _, fns in os.walk(base):
+        for fn in fns:
+            if not fn.endswith('.py'):
+                continue
+            path = os.path.join(root, fn)
+            try:
+                tree = _ast.parse(open(path).read())
+            except SyntaxError:
+                continue
+            for node in _ast.walk(tree):
+                if isinstance(node, _ast.Attribute) and isinstance(node.value, _ast.Name) and (node.value.id, node.attr) in DENY_ATTR:
+                    lint.append((os.path.relpath(path, base), node.lineno, f'{node.value.id}.{node.attr}'))
+                elif isinstance(node, _ast.Attribute) and node.attr in DENY_METH and isinstance(node.ctx, _ast.Load):
+                    lint.append((os.path.relpath(path, base), node.lineno, f'.{node.attr}()'))
+                elif isinstance(node, (_ast.Import, _ast.ImportFrom)):
+                    mods = [a.name.split('.')[0] for a in node.names] if isinstance(node, _ast.Import) else [(node.module or '').split('.')[0]]
+                    for m in mods:
+                        if m in DENY_MOD:
+                            lint.append((os.path.relpath(path, base), node.lineno, f'import {m}'))
+    # the host modules of the known finding F17 and the pre-existing uses are the allowed baseline
+    ALLOWED = {('trace_handlers/bsd.py', 'import errno'), ('trace_handlers/bsd.py', 'import socket'), ('trace_handlers/bsd.py', 'import signal')}
+    new_uses = sorted({(f, what) for f, _, what in lint} - ALLOWED)
+    ctx.extra['host_facility_uses'] = sorted({(f, what) for f, _, what in lint})
+    if new_uses:
+        ctx.broken.append(('translate', {'what': 'the library consults a facility of the host that the decoder model does not have as a '
+                                                 'parameter (c18_only_through_tables no longer describes the code)', 'uses': new_uses}))
     stubs = os.path.join(os.path.dirname(os.path.dirname(os.path.abspath(__file__))), 'harness', 'stubs')
     la = vlib.run_impl('run_api.py', {'cases': lreqs})['results']
     lb = vlib.run_impl('run_api.py', {'cases': lreqs}, env_extra={'PYTHONPATH': '/repo:' + stubs})['results']
